@@ -222,6 +222,84 @@ def check_composed(res, B, elems, xs, case, sub, tol=1e-9, firsts=None, seconds=
                     break
 
 
+def check_aliasing(res, B, elems, xs, case, sub, ops_wanted, tol=1e-11):
+    """N9 / N10: several objects alive at once.
+    N9  two elements built one after the other from ONE SX work vector that is refilled in place (`buf[i] = ...`) - the first element
+        must keep its own value;
+    N10 the result of an operation on A is kept (as an SX, not yet evaluated) while the same operation is applied to B, and evaluated
+        afterwards; and one casadi Function with the two outputs [op(A), op(B)] - each result must be the one of its own argument
+        (work matrices stored on the group / class, mutable default arguments)."""
+    G, A = B.G, B.G.algebra
+    ops = {k: v for k, v in group_ops(B).items() if k in ops_wanted and len(v[0]) == 1}
+    if "exp_to_Matrix" in ops_wanted and B.get("exp") is not None and B.get("to_Matrix") is not None:
+        ops["exp_to_Matrix"] = (("a",), lambda x: x.exp(G).to_Matrix())  # the matrix form of exp(x): two of them alive at once
+
+    def mk(kind, par):
+        return G.elem(par) if kind == "g" else A.elem(par)
+
+    class _Call:
+        @staticmethod
+        def call(op, p):
+            if op == "exp_to_Matrix":
+                return B.call("to_Matrix", B.vec("exp", p))
+            return B.call(op, p)
+    Bc = _Call
+
+    for op, (kinds, fn) in ops.items():
+        kind = kinds[0]
+        pool = elems if kind == "g" else xs
+        if len(pool) < 2:
+            continue
+        for i in range(len(pool)):
+            pa, pb = np.asarray(pool[i], dtype=float), np.asarray(pool[(i + 1) % len(pool)], dtype=float)
+            if np.array_equal(pa, pb) or not (np.all(np.isfinite(pa)) and np.all(np.isfinite(pb))):
+                continue
+            res.count("evaluations", 3)
+            res.count("aliasing_calls", 3)
+            try:
+                want_a, want_b = Bc.call(op, pa), Bc.call(op, pb)
+            except RuntimeError:
+                break
+            if not (np.all(np.isfinite(want_a)) and np.all(np.isfinite(want_b))):
+                continue
+            try:
+                with contextlib.redirect_stdout(io.StringIO()):
+                    # N9: one work vector, refilled in place
+                    buf = ca.SX(len(pa), 1)
+                    for k, v in enumerate(pa):
+                        buf[k] = float(v)
+                    ea = mk(kind, buf)
+                    for k, v in enumerate(pb):
+                        buf[k] = float(v)
+                    eb = mk(kind, buf)
+                    got9a, got9b = ev(fn(ea)), ev(fn(eb))
+                    # N10: both results alive before either is evaluated
+                    fa, fb = mk(kind, ca.DM(pa)), mk(kind, ca.DM(pb))
+                    ra = fn(fa)
+                    rb = fn(fb)
+                    got10a, got10b = ev(ra), ev(rb)
+                    sa, sb = ca.SX.sym("a", len(pa)), ca.SX.sym("b", len(pb))
+                    o1 = fn(mk(kind, sa))
+                    o2 = fn(mk(kind, sb))
+                    F2 = ca.Function("two", [sa, sb], [ca.densify(ca.SX(o1)), ca.densify(ca.SX(o2))])
+                    t1, t2 = [np.array(x, dtype=float) for x in F2(ca.DM(pa), ca.DM(pb))]
+            except NotImplementedError:
+                break
+            except Exception as ex:
+                res.fail(site="%s.%s" % (B.name, op), clause="numeric_api:call_raises", cls="aliasing", detail=dict(a=pa, b=pb, error="%s: %s" % (type(ex).__name__, str(ex)[:200])), sub=sub, case=case)
+                break
+            for clause, got, want, which in (("numeric_api:element_keeps_its_value_when_the_callers_buffer_is_refilled", got9a, want_a, "first"),
+                                             ("numeric_api:element_keeps_its_value_when_the_callers_buffer_is_refilled", got9b, want_b, "second"),
+                                             ("numeric_api:results_of_two_calls_are_independent_objects", got10a, want_a, "first"),
+                                             ("numeric_api:results_of_two_calls_are_independent_objects", got10b, want_b, "second"),
+                                             ("numeric_api:results_of_two_calls_are_independent_objects", t1, want_a, "first_output_of_one_function"),
+                                             ("numeric_api:results_of_two_calls_are_independent_objects", t2, want_b, "second_output_of_one_function")):
+                ok, err = _same(got.reshape(want.shape) if got.size == want.size else got, want, tol)
+                if not ok:
+                    res.fail(site="%s.%s" % (B.name, op), clause=clause, cls=which, detail=dict(op=op, a=pa, b=pb, got=got, want=want, err=err), sub=sub, case=case)
+                    break
+
+
 def check_history(res, B, elems, xs, case, sub, targets, preludes, tol=1e-11):
     """N6: the result of an operation on an element object does not depend on which other operations were called on that object before
     (lazily cached or silently rewritten per-object state).  For every element, every target op and every prelude op (same argument
